@@ -2,9 +2,9 @@
 # usage: collect_round2.sh <P>   copies /tmp/wt2_<P>/OUT/{1,2} to seeded/<P>-3, <P>-4 and removes the agent's worktree
 P=$1
 for n in 1 2; do
-  src=/tmp/wt2_$P/OUT/$n; dst=/verif/seeded/$P-$((n+2))
+  src=/tmp/wt${R:-2}_$P/OUT/$n; dst=/verif/seeded/$P-$((n+${OFF:-2}))
   [ -d $src ] || { echo "$P: no OUT/$n"; continue; }
   mkdir -p $dst; cp $src/patch.diff $src/demo.py $src/notes.md $dst/ 2>/dev/null
   echo "collected $dst"
 done
-git -C /repo worktree remove --force /tmp/wt2_$P 2>/dev/null && echo "removed worktree wt2_$P"
+git -C /repo worktree remove --force /tmp/wt${R:-2}_$P 2>/dev/null && echo "removed worktree wt2_$P"
